@@ -193,8 +193,8 @@ pub fn c02() -> HistCheck {
         profile: p_c02,
         rule: "hist tapes with up to 6 live readers begun at different commit points, owned ranges/guards kept past the transaction handle and resumed later, followed by commits of all durabilities, table deletes, aborts, savepoint restores, refused compactions, growth/shrink, cache sizes from 0; after later steps each reader's table list, get/range/first/last/len and full scans, and every resumed owned object, must equal the model snapshot of its commit point. Non-trivial: a reader (or its owned object) consulted after >=2 later commits of which >=1 freed (delete/overwrite) and >=1 allocated, with cache <= 8 pages or a non-durable commit in between; distinct by hash of (reader commit point, current commit point, both states).",
         assumptions: &["single-threaded schedule here; reader/writer thread interleavings are C03's engine"],
-        quick: (1500, 140),
-        thorough: (40_000, 200),
+        quick: (16_000, 140),
+        thorough: (300_000, 200),
         classify: c_c02,
         probes: &[],
     }
@@ -245,8 +245,8 @@ pub fn c05() -> HistCheck {
         profile: p_c05,
         rule: "hist tapes in which transactions (table writes, create/rename/delete, savepoint create/delete/restore, durability changes, held handles) end by abort(), by drop, or by commit() after a panicking retain predicate (caught outside the transaction); after every abandonment: committed contents of every table, table lists, list_persistent_savepoints, allocated_pages (exact equality with the value at the start of the abandoned transaction) must be unchanged, commit() of a poisoned transaction must return TransactionPoisoned; savepoint validity is checked by later restores in the same history. Non-trivial: the abandoned body held >=1 structural op and >=1 allocating write and the preceding history has a live savepoint or a pending non-durable commit; distinct by history hash.",
         assumptions: &["a WriteTransaction dropped during unwinding (documented leak until reopen) is not generated", "storage-error-inside-operation cases are judged by C08"],
-        quick: (2500, 120),
-        thorough: (100_000, 160),
+        quick: (30_000, 120),
+        thorough: (600_000, 160),
         classify: c_c05,
         probes: &[],
     }
@@ -288,8 +288,8 @@ pub fn c07() -> HistCheck {
         profile: p_c07,
         rule: "hist tapes dominated by savepoint operations (ephemeral/persistent create, restore, delete, drop) in all legal and illegal orders interleaved with data transactions of all durabilities, aborts and clean reopen; restore+commit must make every table and the catalog equal the captured model state, later savepoints must be refused (InvalidSavepoint) or vanish from list/get, restore+abort must change nothing, persistent ids must survive reopen; every refusal variant is compared with the model. The crash part (persistent savepoints across crash states) runs in C01's engine. Non-trivial: a successful restore to a savepoint that is not the newest live one in a history with >=1 non-durable commit; distinct by history hash.",
         assumptions: &["Savepoint objects of persistent savepoints are fetched fresh with get_persistent_savepoint"],
-        quick: (2500, 140),
-        thorough: (60_000, 200),
+        quick: (30_000, 140),
+        thorough: (600_000, 200),
         classify: c_c07,
         probes: &[],
     }
@@ -338,8 +338,8 @@ pub fn c13() -> HistCheck {
         profile: p_c13,
         rule: "hist tapes building fragmented multi-region states (interleaved big/small values, deletes, pending frees, pending non-durable commits, multimap subtrees) with compact() calls; with a reader, owned object or savepoint alive compact() must refuse with a variant naming a condition that holds and change nothing; otherwise contents of every table must be unchanged and the backend length must not grow. Non-trivial: a completed compaction on a database holding a table of height >= 2; distinct by history hash. Crash states inside compaction windows are enumerated by C01's engine (phase 'compact').",
         assumptions: &["compact() is never called with a live write transaction on the same thread (documented deadlock)"],
-        quick: (1500, 200),
-        thorough: (30_000, 260),
+        quick: (12_000, 200),
+        thorough: (200_000, 260),
         classify: c_c13,
         probes: &[probe_c13_empty_compact],
     }
@@ -384,8 +384,8 @@ pub fn c17() -> HistCheck {
         profile: p_c17,
         rule: "hist catalog profile: 6 names (prefixes of each other, one non-ASCII) x 8 definitions (table/multimap x key u64/&str x value &[u8]/u64), operations open (stored or deliberately different definition), a few data ops, hold/drop handle in any order, open twice, rename (to self, to existing, of open table, of missing, wrong kind), delete (wrong kind, open, missing), list in write and read transactions, commit/abort, reopen; compared with a model map name -> (kind, types, contents) with transaction-local staging; exact TableError variant for TableAlreadyOpen, TableDoesNotExist, TableExists, TableIsMultimap, TableIsNotMultimap, TableTypeMismatch. Non-trivial: a history with >=1 refused operation whose variant was checked and >=1 successful rename or delete; distinct by history hash.",
         assumptions: &["rename onto an existing table of the other kind: only 'an error and no change' is required (the code reports the kind error)"],
-        quick: (4000, 120),
-        thorough: (150_000, 160),
+        quick: (50_000, 120),
+        thorough: (1_000_000, 160),
         classify: c_c17,
         probes: &[],
     }
